@@ -390,6 +390,17 @@ func runGwHistory(rng *rand.Rand, w *Writer, suite string, malformed bool) {
 		} else {
 			o += "[" + strings.Join(fs, " ") + "]"
 		}
+		// the receive times the forwarder stamps on the entries of one datagram are pairwise different (the inbox is keyed
+		// by device and receive time: two frames of one device in one datagram must both be storable)
+		for i := range f {
+			for j := i + 1; j < len(f); j++ {
+				if f[i].ReceivedAt.Equal(f[j].ReceivedAt) {
+					o += " SAME-RECEIVE-TIME"
+					i = len(f)
+					break
+				}
+			}
+		}
 		if !ok {
 			o = "HUNG"
 		}
@@ -578,6 +589,7 @@ func init() {
 	// C01 behind the forwarder: what reaches the pipeline is what the gateway reported, byte for byte
 	gw01 := gwSuite("C01", false, 15, 300)
 	suites["gwC01"] = gw01
+	suites["gwC02"] = gwSuite("C02", false, 12, 250)
 	suites["C15"] = gwSuite("C15", false, 60, 1500)
 	suites["C16"] = gwSuite("C16", false, 60, 1500)
 	suites["C17"] = gwSuite("C17", false, 60, 1500)
